@@ -5,6 +5,7 @@
 -/
 import CrCube.Lemmas.Pruning
 import CrCube.Props.C02
+import CrCube.Lemmas.Slice1Var
 
 set_option linter.unusedSimpArgs false
 
@@ -117,6 +118,44 @@ theorem mr_x_mr_selected_only (R C : Var) (hC : C.kind = .arr) (s : Survey) (i :
     rowsPruneSpec R C s i
       = ((List.range C.ext).map fun j => specCount [R, C] s [i, j] [false, true]).sum := by
   unfold rowsPruneSpec; simp [hC]
+
+/-- columns direction: the mirror image -/
+def colsPruneSpec (R C : Var) (s : Survey) (j : Nat) : Rat :=
+  if C.kind = .arr ∧ R.kind = .cat then specCount [R, C] s [0, j] [true, true]
+  else ((List.range R.ext).map fun i => specCount [R, C] s [i, j] [true, false]).sum
+
+theorem columnsPruningBase_spec (R C : Var) (hR : R.CM) (hC : C.CM) (s : Survey) (j : Nat)
+    (hj : j < C.ext) (hR0 : 0 < R.ext) :
+    (sliceCounts [R, C] (cubeOf [R, C] s) 0).columnsPruningBase j = .fin (colsPruneSpec R C s j) := by
+  rw [slice2d_columnsPruningBase R C hR hC]
+  unfold colsPruneSpec
+  split
+  · exact raw_tableBases R C hR hC s 0 j hR0 hj
+  · rw [vsum_congr R.ext _ _ (fun i hi => raw_colBases R C hR hC s i j hi hj), vsum_fin]
+
+theorem columns_empty_iff (R C : Var) (hR : R.CM) (hC : C.CM) (s : Survey) (j : Nat)
+    (hj : j < C.ext) (hR0 : 0 < R.ext) :
+    ((sliceCounts [R, C] (cubeOf [R, C] (unweight s)) 0).columnsPruningBase j == .fin 0) = true
+      ↔ colsPruneSpec R C (unweight s) j = 0 := by
+  rw [columnsPruningBase_spec R C hR hC _ j hj hR0]
+  simp
+
+/-- 1-D: a categorical row is empty iff its unweighted count is 0; a multiple-response item iff
+    nobody answered it (selected or not) -/
+theorem strand_pruning_base (V : Var) (hV : V.CM) (s : Survey) (i : Nat) (hi : i < V.ext) :
+    (strandCounts [V] (cubeOf [V] (unweight s))).pruningBase i
+      = .fin (specCount [V] (unweight s) [i] [decide (V.kind = .arr)]) := by
+  rcases hV with h | ⟨h, hm, h0⟩
+  · have hV' : V.CM := Or.inl h
+    have := strand_counts_spec V hV' (unweight s) i hi
+    simp only [h, show decide (VKind.cat = VKind.arr) = false by decide]
+    rw [← this]
+    simp [strandCounts, apparentKinds, Var.dks, h, StripeCounts.cat]
+  · have hV' : V.CM := Or.inr ⟨h, hm, h0⟩
+    have := strand_bases_spec V hV' (unweight s) i hi
+    simp only [h, decide_true]
+    rw [← this]
+    simp [strandCounts, apparentKinds, Var.dks, h, hm, StripeCounts.mr]
 
 -- tests (not the claim): MR item answered "other" only.  Crossed with CAT it is non-empty,
 -- crossed with MR it is empty.
